@@ -1,0 +1,27 @@
+//go:build verif
+// +build verif
+
+package labels
+
+import "github.com/janelia-flyem/dvid/dvid"
+
+// Verification hooks (build tag "verif" only): export unexported block-codec helpers and the alternative
+// code paths so an external harness can call them.  No behaviour change; not compiled without the tag.
+
+// VerifBitsFor exposes bitsFor.
+func VerifBitsFor(n uint16) uint32 { return bitsFor(n) }
+
+// VerifGetPackedValue exposes getPackedValue.
+func VerifGetPackedValue(b []byte, bitHead, bits uint32) uint16 { return getPackedValue(b, bitHead, bits) }
+
+// VerifGetNumVoxels exposes Block.getNumVoxels.
+func VerifGetNumVoxels(b *Block, labelIndex uint32) uint64 { return b.getNumVoxels(labelIndex) }
+
+// VerifDownresArray exposes downresArray.
+func VerifDownresArray(hires, lores []byte, vx, vy, vz int32, blockSize dvid.Point3d) {
+	downresArray(hires, lores, vx, vy, vz, blockSize)
+}
+
+// VerifSplitSlow and VerifSplitFast expose the two split implementations.
+func VerifSplitSlow(pb PositionedBlock, op SplitOp) (*Block, uint64, uint64, error) { return pb.splitSlow(op) }
+func VerifSplitFast(pb PositionedBlock, op SplitOp) (*Block, uint64, uint64, error) { return pb.splitFast(op) }
